@@ -284,7 +284,10 @@ class Want:
         else:
             self.exact = Fr(us)
             self.tol = 0
-        self.floor_ok = tag.startswith("dt64") and self.exact % US != 0
+        # a sub-second datetime64 denotes that instant: flooring it to whole seconds is NOT the same
+        # instant (the library did that before fix 50a6825; "to whole seconds" in the statement is about
+        # the round trip *through* to_datetime64, which is checked separately)
+        self.floor_ok = False
         fl = int(self.exact // US)
         self.floor_secs = {fl}
         if self.tol:
